@@ -105,7 +105,7 @@ func cmdVC(args []string) {
 		if fc.Trusted != "" {
 			continue
 		}
-		fn := l.funcs[k]
+		fn := l.funcs[contractFuncKey(fc)]
 		if fn == nil {
 			fmt.Printf("MISSING %s\n", k)
 			continue
